@@ -38,7 +38,7 @@ Fixpoint dec (s : sexp) {struct s} : option pyexpr :=
   match s with
   | SList (SInt tag :: args) =>
       match tag, args with
-      | 1%Z, [SStr id] => Some (PName id)
+      | 1%Z, [SStr id; SInt l] => Some (PName id (negb (l =? 0)%Z))
       | 2%Z, [SInt b; SStr r] => Some (PNum (negb (b =? 0)%Z) r)
       | 3%Z, [SStr r] => Some (PConst r)
       | 4%Z, [SStr r; SStr raw; p] => do p' <- dopt p; Some (PStr r raw p')
@@ -171,7 +171,8 @@ Definition run_one (top parse : Z) (e : pyexpr) : sexp :=
          of_bool (ref_unsupported e');
          of_opt (fun g => SStr (render fx g)) b';
          of_bool (drops fx e');
-         of_bool (lits_agree env e)].
+         of_bool (lits_agree env e);
+         of_bool (scope_ok [] e)].
 End Run.
 
 Definition dec_env (s : sexp) : option nenv :=
@@ -185,7 +186,7 @@ Definition enc_fixes (f : fixes) : sexp :=
      top   = minimal precedence of the storing position (3: assignment value, 4: everything else)
      parse = 1 when string annotations are parsed at this position (parse_strings=True)
      env   = ((name path) ...) the bindings of the module's import statements
-   result: (wf no_parsed build rprint gaps names ref_unsupported render-of-substituted drops lits_agree)
+   result: (wf no_parsed build rprint gaps names ref_unsupported render-of-substituted drops lits_agree scope_ok)
      build = () when _build raises, else ((str class flat-pieces one-layer-pieces canonical_path str-of-modernize))
    ("fixes"): the repairs the translator found in the tree under test *)
 Definition run_C03 (s : sexp) : sexp :=
